@@ -30,6 +30,9 @@ import (
 	"encoding/binary"
 	"fmt"
 	"math/rand/v2"
+	"os"
+	"path/filepath"
+	"runtime"
 	"strings"
 	"sync"
 	"sync/atomic"
@@ -272,6 +275,7 @@ type run struct {
 	vmu      sync.Mutex
 
 	cloneMu sync.Mutex // serialises clones + audits of the client and the crasher
+	audits  atomic.Int64
 	clones  int
 	maxM    int
 }
@@ -294,6 +298,8 @@ func (s *run) cloneAndAudit(pct int, who string) {
 	c := s.mem.CrashClone(cfg)
 	issued := int(s.issued.Load()) // after the clone
 	s.clones++
+	s.audits.Add(1)
+	defer s.audits.Add(1)
 	s.r.Count("clones_audited", 1)
 	s.r.Count(fmt.Sprintf("clones_audited_pct%d", pct), 1)
 	s.r.Count("clones_by_"+who, 1)
@@ -504,11 +510,13 @@ func (s *run) exec() {
 			}
 		}
 	}()
-	tm := time.NewTimer(watchdog)
-	defer tm.Stop()
+	// Watchdog on progress (a batch issued or a clone audited), not on the total
+	// duration: the machine may be heavily loaded.
 	tick := time.NewTicker(50 * time.Millisecond)
 	defer tick.Stop()
 	abandoned := false
+	lastProgress := time.Now()
+	lastSeen := int64(-1)
 wait:
 	for {
 		select {
@@ -521,10 +529,17 @@ wait:
 				abandoned = true
 				break wait
 			}
-		case <-tm.C:
-			r.Inconclusive("case %d: client did not finish within %s (issued %d)", s.caseID, watchdog, s.issued.Load())
-			abandoned = true
-			break wait
+			if cur := s.issued.Load() + s.audits.Load()<<32; cur != lastSeen {
+				lastSeen, lastProgress = cur, time.Now()
+			} else if time.Since(lastProgress) > watchdog {
+				buf := make([]byte, 1<<20)
+				buf = buf[:runtime.Stack(buf, true)]
+				p := filepath.Join(vcommon.OutDir(), fmt.Sprintf("C21.db.case%d.stacks.txt", s.caseID))
+				_ = os.WriteFile(p, buf, 0o644)
+				r.Inconclusive("case %d: no progress for %s (issued %d of %d batches); goroutine stacks in %s", s.caseID, watchdog, s.issued.Load(), s.p.Batches, p)
+				abandoned = true
+				break wait
+			}
 		}
 	}
 	close(stopCrasher)
@@ -588,7 +603,7 @@ func TestVerifC21DB(t *testing.T) {
 		"while the primary / secondary WAL directory is stalled at seeded moments and crash clones are taken by the client and by a concurrent crasher; " +
 		"non-trivial = the real failoverMonitor switched directories at least once; distinct key = case + switch count + clones + recovered batches")
 	r.Assume("crash model = vfs.MemFS.CrashClone; monitor timing is real time and only affects how many switches happen")
-	n := vcommon.Scale(3, 120)
+	n := vcommon.Scale(3, 96)
 	r.Cases(n, func(i int, rng *rand.Rand) {
 		fmvs := []uint64{uint64(pebble.FormatNewest), uint64(pebble.FormatNewest), uint64(pebble.FormatWALSyncChunks) - 1}
 		p := params{
